@@ -1,6 +1,7 @@
 import SgVerif.C44.Lemmas
 import SgVerif.C44.EnumLemmas
 import SgVerif.C44.MaxLemmas
+import SgVerif.C44.TopoLemmas
 /-
 C44 — Unfolding set algebra is correct.  Property theorems.
 
@@ -11,7 +12,8 @@ an element of a non-empty list.
 
 `maximal_subsets_complete_nodup`, `subsets_enumerators_complete_nodup` (second half of this file): the stack machine of
 `maximal_subsets_iterator` and the machines of src/xbt/utils/iter are EQUAL to recursive definitions, for all inputs, and
-these contain every qualifying subset exactly once.
+these contain every qualifying subset exactly once.  `topological_ordering_valid`: `get_topological_ordering` (as fixed
+by e7a2e0d8bb) returns, on every acyclic structure, for every hash order, each event of the set exactly once, causes first.
 -/
 namespace SgVerif.C44
 
@@ -411,5 +413,93 @@ example : ([4, 3, 2, 1, 0] : List Nat).Pairwise (fun x y => ¬ Le exES x y) := b
   refine List.Pairwise.imp_of_mem (R := fun x y => inHistoryOf pickHead exES x y = false) ?_ (by decide)
   intro a b _ hb h
   exact key a b (by simp at hb; omega) h
+
+/-! ### get_topological_ordering -/
+
+section
+variable {pick : List Nat → Option Nat} (hp : PickOk pick) {order : Nat → List Nat → List Nat}
+  (hord : ∀ e l, (order e l).Perm l) {es : ES} (hv : es.Valid) (hac : ∀ x, ¬ Lt es x x)
+include hp hord hv hac
+
+/-- **topological_ordering_valid**: on every ACYCLIC event structure (no event strictly below itself), for every set `s`,
+every choice of `*unknown_events.begin()` and every iteration order of the immediate causes (every hash order),
+`EventSet::get_topological_ordering()` — the coloured depth-first search with an explicit stack, as it is since the fix
+e7a2e0d8bb — terminates without raising its cycle exception and returns a list that contains each event of `s` exactly
+once in which no event comes before one of its (transitive) causes. -/
+theorem topological_ordering_valid (s : EventSet) (hs : ∀ x ∈ s, x < es.n) :
+    ∃ out, getTopologicalOrdering true pick order es s = .ok out ∧ out.Nodup ∧ (∀ x, x ∈ out ↔ x ∈ s) ∧
+      out.Pairwise (fun a b => ¬ Lt es b a) := by
+  unfold getTopologicalOrdering
+  by_cases hem : s.isEmpty = true
+  · have : s = [] := List.isEmpty_iff.mp hem
+    subst this
+    exact ⟨[], by simp, by simp, by simp, by simp⟩
+  · simp only [hem, Bool.false_eq_true, if_false]
+    exact topoOuter_ok hp hord hv hac hs s.length ⟨[], [], s, [], [], []⟩
+      ⟨(fun x hx => nomatch hx), List.nodup_nil, (fun x => by simp), List.Pairwise.nil, (List.filter_eq_self.mpr (fun _ _ => rfl)).symm, rfl⟩ (Nat.le_refl _)
+
+/-- the ordering handed to `maximal_subsets_iterator` (`get_topological_ordering_of_reverse_graph`): each event of `s`
+once, and an earlier event is never below-or-equal a later one (effects first) -/
+theorem topological_ordering_of_reverse_graph_valid (s : EventSet) (hs : ∀ x ∈ s, x < es.n) :
+    ∃ ord, getTopologicalOrderingOfReverseGraph true pick order es s = .ok ord ∧ ord.Nodup ∧ (∀ x, x ∈ ord ↔ x ∈ s) ∧
+      ord.Pairwise (fun x y => ¬ Le es x y) := by
+  obtain ⟨out, h1, h2, h3, h4⟩ := topological_ordering_valid hp hord hv hac s hs
+  refine ⟨out.reverse, by simp [getTopologicalOrderingOfReverseGraph, h1], ?_, by simpa using h3, ?_⟩
+  · show List.Pairwise _ _
+    rw [List.pairwise_reverse]
+    exact List.Pairwise.imp (fun h => Ne.symm h) h2
+  · rw [List.pairwise_reverse]
+    refine List.Pairwise.imp ?_ (List.Pairwise.and h2 h4)
+    rintro a b ⟨hne, hlt⟩ hle
+    rcases le_iff_eq_or_lt hle with h | h
+    · exact hne h.symm
+    · exact hlt h
+
+/-- **the iterator as the C++ constructs it** (`maximal_subsets_iterator(events, nullopt, maxSize)`): the ordering computed
+by the constructor satisfies the hypotheses of `maximal_subsets_complete_nodup`, hence for every set `s` of an acyclic
+structure the iteration yields every subset of pairwise causally unrelated events of `s` (within the size limit) exactly
+once — whatever the hash order. -/
+theorem maximal_subsets_of_event_set_complete_nodup (s : EventSet) (hs : ∀ x ∈ s, x < es.n) (maxSize : Option Nat)
+    (hm : maxSize ≠ some 0) (fuel : Nat) (hf : 2 ^ s.length ≤ fuel) :
+    ∃ ord, getTopologicalOrderingOfReverseGraph true pick order es s = .ok ord ∧ (∀ x, x ∈ ord ↔ x ∈ s) ∧
+      (maximalSubsets pick es ord maxSize fuel).Nodup ∧
+      (∀ t, t.Sublist ord → (t ∈ maximalSubsets pick es ord maxSize fuel ↔
+          t.Pairwise (fun a b => ¬ Le es a b ∧ ¬ Le es b a) ∧ ∀ mm, maxSize = some mm → t.length ≤ mm)) ∧
+      (∀ t1 ∈ maximalSubsets pick es ord maxSize fuel, ∀ t2 ∈ maximalSubsets pick es ord maxSize fuel,
+          (∀ x, x ∈ t1 ↔ x ∈ t2) → t1 = t2) := by
+  obtain ⟨ord, h1, h2, h3, h4⟩ := topological_ordering_of_reverse_graph_valid hp hord hv hac s hs
+  have hlen : ord.length ≤ s.length := List.Nodup.length_le_of_subset h2 (fun x hx => (h3 x).mp hx)
+  have hpow : 2 ^ ord.length ≤ fuel := Nat.le_trans (Nat.pow_le_pow_right (by omega) hlen) hf
+  obtain ⟨_, g2, _, g4, g5⟩ := maximal_subsets_complete_nodup hp hv ord h2 (fun x hx => hs x ((h3 x).mp hx)) h4
+    maxSize hm fuel hpow
+  exact ⟨ord, h1, h3, g2, g4, g5⟩
+
+end
+
+/-- regression (finding `topological-ordering-repeats-events-when-immediate-causes-are-related`, fixed by e7a2e0d8bb):
+events 0, 1 (cause 0), 2 (causes 1 AND 0) — the code before the fix (`skipEmitted = false`) emitted event 0 twice, the
+second time after its effect 1; the fixed code emits 0 1 2 -/
+theorem topological_ordering_prefix_regression :
+    getTopologicalOrdering false pickHead (fun _ l => l.reverse) ⟨[[], [0], [1, 0]]⟩ [2, 1, 0] = .ok [0, 1, 0, 2] ∧
+    getTopologicalOrdering true pickHead (fun _ l => l.reverse) ⟨[[], [0], [1, 0]]⟩ [2, 1, 0] = .ok [0, 1, 2] := by
+  decide
+
+theorem exES_acyclic : ∀ x, ¬ Lt exES x x := by
+  apply acyclic_of_decreasing
+  intro e c hc
+  unfold ES.causesOf exES at hc
+  match e with
+  | 0 | 1 => simp at hc
+  | 2 | 3 => simp at hc; omega
+  | 4 => simp at hc; omega
+  | n + 5 => simp at hc
+
+/-- non-vacuity: the corpus unfolding is acyclic; the ordering of {2,3,4,0} computed with "first element / causes in list
+order" puts 0 first, and the theorem applies to it -/
+example : getTopologicalOrdering true pickHead (fun _ l => l) exES [4, 3, 2, 0] = .ok [0, 4, 3, 2] := by decide
+example : ∃ out, getTopologicalOrdering true pickHead (fun _ l => l) exES [4, 3, 2, 0] = .ok out ∧ out.Nodup ∧
+    (∀ x, x ∈ out ↔ x ∈ [4, 3, 2, 0]) ∧ out.Pairwise (fun a b => ¬ Lt exES b a) :=
+  topological_ordering_valid pickHead_ok (fun _ l => List.Perm.refl l) exES_valid exES_acyclic [4, 3, 2, 0]
+    (by decide)
 
 end SgVerif.C44
